@@ -351,9 +351,6 @@ func (s *Server) NewClientConn(conn io.ReadWriteCloser, remoteAddr string) *Clie
 		ClientFileTransferMgr: NewClientFileTransferMgr(),
 	}
 
-	s.ClientMgr.Add(clientConn)
-	verifhook.Event("conn.registered", s, clientConn.ID, 0)
-
 	return clientConn
 }
 
@@ -411,7 +408,6 @@ func (s *Server) handleNewConnection(ctx context.Context, rwc io.ReadWriteCloser
 	}
 
 	c := s.NewClientConn(rwc, remoteAddr)
-	defer c.Disconnect()
 
 	encodedPassword := clientLogin.GetField(FieldUserPassword).Data
 	c.Version = clientLogin.GetField(FieldVersion).Data
@@ -457,6 +453,11 @@ func (s *Server) handleNewConnection(ctx context.Context, rwc io.ReadWriteCloser
 	if c.Authorize(AccessDisconUser) {
 		c.Flags.Set(UserFlagAdmin, 1)
 	}
+
+	// Register the connection only now that it is authenticated: a peer that fails to log in must never appear in
+	// the user list, receive broadcasts, or cause a "user left" notification when it goes away.
+	s.ClientMgr.Add(c)
+	defer c.Disconnect()
 
 	verifhook.Event("login.ok", s, c.ID, 0)
 
